@@ -1410,6 +1410,124 @@ fn step_price_probe(ctx: &mut RunCtx, prog: &Prog, src: Option<&str>) {
     }
 }
 
+// ------------------------------------------------------------------------------------------
+// Parameter non-interference: a ledger parameter that belongs to builtin B (its name starts with
+// `B_cpu_arguments` / `B_memory_arguments`) may change the charge of a program only if the program
+// contains B, and a `_cpu_` parameter may change only the cpu figure, a `_memory_` one only mem.
+
+fn norm(s: &str) -> String {
+    s.chars().filter(|c| *c != '_').flat_map(|c| c.to_lowercase()).collect()
+}
+
+fn builtins_of(term: &Term<NamedDeBruijn>) -> std::collections::BTreeSet<String> {
+    let mut out = std::collections::BTreeSet::new();
+    let mut stack = vec![term];
+    while let Some(t) = stack.pop() {
+        match t {
+            Term::Builtin(f) => {
+                out.insert(norm(&format!("{f:?}")));
+            }
+            Term::Delay(b) | Term::Force(b) => stack.push(b),
+            Term::Lambda { body, .. } => stack.push(body),
+            Term::Apply { function, argument } => {
+                stack.push(function);
+                stack.push(argument);
+            }
+            Term::Constr { fields, .. } => stack.extend(fields.iter()),
+            Term::Case { constr, branches } => {
+                stack.push(constr);
+                stack.extend(branches.iter());
+            }
+            _ => {}
+        }
+    }
+    out
+}
+
+fn param_names(lang: Lang) -> Vec<String> {
+    use uplc::machine::cost_model::ParamName;
+    let list: Vec<ParamName> = match lang {
+        Lang::V1 => ParamName::V1.to_vec(),
+        Lang::V2 => ParamName::V2.to_vec(),
+        Lang::V3 => ParamName::V3.to_vec(),
+    };
+    list.iter().map(|p| format!("{p:?}")).collect()
+}
+
+fn param_interference_probe(ctx: &mut RunCtx, prog: &Prog, src: Option<&str>, how_many: usize) {
+    let lang = prog.home;
+    let base: Vec<i64> = match lang {
+        Lang::V3 => corpus().v3_costs.clone(),
+        _ => corpus().v2_costs.clone(),
+    };
+    let Some((c0, _, ok)) = eval_with_vector(&prog.term, lang, &base) else {
+        return;
+    };
+    if !ok {
+        return;
+    }
+    let used = builtins_of(&prog.term);
+    let names = param_names(lang);
+    let n = names.len().min(base.len());
+    let mut indices: Vec<usize> = (0..n).collect();
+    ctx.rng.shuffle(&mut indices);
+    // parameters of the program's own builtins first, then a random sample of the others
+    indices.sort_by_key(|i| {
+        let owner = names[*i].split("_cpu_arguments").next().unwrap_or("").split("_memory_arguments").next().unwrap_or("").to_string();
+        !used.contains(&norm(&owner))
+    });
+    let own = indices.iter().filter(|i| {
+        let owner = names[**i].split("_cpu_arguments").next().unwrap_or("").split("_memory_arguments").next().unwrap_or("").to_string();
+        used.contains(&norm(&owner))
+    }).count();
+    indices.truncate(own + how_many);
+    let delta = 7 + ctx.rng.range(1, 1000);
+    for i in indices {
+        let name = &names[i];
+        if name.starts_with("Cek") {
+            continue;
+        }
+        let (owner, dim) = if let Some(o) = name.split("_cpu_arguments").next().filter(|_| name.contains("_cpu_arguments")) {
+            (o.to_string(), "cpu")
+        } else if let Some(o) = name.split("_memory_arguments").next().filter(|_| name.contains("_memory_arguments")) {
+            (o.to_string(), "mem")
+        } else {
+            continue;
+        };
+        let mut v = base.clone();
+        v[i] = v[i].saturating_add(delta);
+        let Some((c1, _, ok1)) = eval_with_vector(&prog.term, lang, &v) else {
+            continue;
+        };
+        ctx.stats.inc("evaluations", 1);
+        ctx.stats.inc("param_interference_probes", 1);
+        let mine = used.contains(&norm(&owner));
+        let bad = if !ok1 {
+            Some("the program no longer evaluates".to_string())
+        } else if !mine && c1 != c0 {
+            Some(format!("the program does not contain builtin {owner}, yet its charge changes from cpu={} mem={} to cpu={} mem={}", c0.0, c0.1, c1.0, c1.1))
+        } else if mine && dim == "cpu" && c1.1 != c0.1 {
+            Some(format!("a cpu parameter changes the memory figure from {} to {}", c0.1, c1.1))
+        } else if mine && dim == "mem" && c1.0 != c0.0 {
+            Some(format!("a memory parameter changes the cpu figure from {} to {}", c0.0, c1.0))
+        } else {
+            None
+        };
+        if let Some(why) = bad {
+            ctx.violation(
+                PROP,
+                "param-interference",
+                format!("param-interference|{name}|{}", lang.tag()),
+                format!(
+                    "program {} (builtins {:?}) under the {} ledger vector: raising {name} by {delta}: {why}",
+                    prog.id, used, lang.tag()
+                ),
+                json!({ "kind": "param-interference", "program": prog.id, "source": src, "lang": lang.tag(), "param": name, "delta": delta }),
+            );
+        }
+    }
+}
+
 const SIZE_PROBE_RUNS_QUICK: u64 = 16;
 const SIZE_PROBE_RUNS_THOROUGH: u64 = 64;
 const COMPILED_RUNS_QUICK: u64 = 140;
@@ -1593,6 +1711,9 @@ impl Engine for BudgetEngine {
         ctx.event(&format!("configs {:?}", cfgs.iter().map(|c| c.class()).collect::<Vec<_>>()));
         if prog.source == ProgSource::Corpus && (pass == 0) {
             step_price_probe(ctx, &prog, src.as_deref());
+            // every parameter of the vector (a sample would meet a given mix-up only rarely)
+            let sample = 400;
+            param_interference_probe(ctx, &prog, src.as_deref(), sample);
         } else if prog.source == ProgSource::Generated && ctx.k % 4 == 0 {
             step_price_probe(ctx, &prog, src.as_deref());
         }
@@ -1618,6 +1739,20 @@ impl Engine for BudgetEngine {
     }
 
     fn replay(&self, trace: &Value, ctx: &mut RunCtx) {
+        if jstr(trace, "kind") == "param-interference" {
+            let id = jstr(trace, "program");
+            let src = trace.get("source").and_then(|s| s.as_str());
+            let prog = match src {
+                Some(src) => parse_source(src).map(|term| Prog { id: id.clone(), source: ProgSource::Generated, term, golden: None, home: Lang::parse(&jstr(trace, "lang")) }),
+                None => corpus().programs.iter().find(|p| p.id == id).and_then(|p| p.parse()),
+            };
+            match prog {
+                // replays every parameter: the violating one is among them
+                Some(p) => param_interference_probe(ctx, &p, src, 400),
+                None => ctx.harness_error("replay: unknown program".into()),
+            }
+            return;
+        }
         if jstr(trace, "kind") == "step-price" {
             let id = jstr(trace, "program");
             let src = trace.get("source").and_then(|s| s.as_str());
